@@ -3,7 +3,12 @@ from wt_common import WT_LEAN, WT_TRUST, wt_engine, e2e_engine, E2E_TRUST
 
 PROP = {
     "generated": [],
-    "lean_modules": WT_LEAN,
+    "lean_modules": WT_LEAN + ["SwimVerif.Model.LinksSys", "SwimVerif.Proofs.Links", "SwimVerif.Proofs.LinksTotal",
+                               "SwimVerif.Proofs.LinksAll", "SwimVerif.Proofs.LinkLang",
+                               "SwimVerif.Proofs.LinkLangUplinks", "SwimVerif.Proofs.LinkLangRemote",
+                               "SwimVerif.Proofs.LinkLangFlow", "SwimVerif.Proofs.LinkLangLinks",
+                               "SwimVerif.Proofs.LinkLangState", "SwimVerif.Proofs.LinkLangGInv",
+                               "SwimVerif.Proofs.LinkLangDone", "SwimVerif.Proofs.LinkLangStop"],
     "engines": [
         e2e_engine("C04"),wt_engine("C04")],
     "level_text": "Proof: for every registry and every interleaving of lane events, link/unlink/lane-not-found "
@@ -13,11 +18,19 @@ PROP = {
                   "the lane's pending data. The whole write task (Links + RemoteTracker + WriteTaskState: link, "
                   "unlink, unknown lane, targeted/broadcast events, write failure, lane failure, prune, unlink_all "
                   "+ drain) is modelled and tied to the real WriteTaskState by differential execution, frame by "
-                  "frame; the per-(remote, lane) frame language is decided on implementation traces by the Lean "
-                  "monitor (open as a theorem).",
-    "level_note": "The frame-language statement for the composed write task is checked by monitor + correspondence, "
-                  "not proved; the read task, select! ordering and real socket back-pressure are outside the model.",
+                  "frame. The per-(remote, lane) frame language of the WHOLE write task is proved for the model "
+                  "(C04_link_language_partial: every well-formed event sequence with lane names registered once, "
+                  "below the checker's key modulus, is accepted: linked before events, nothing after unlinked "
+                  "until relinked, synced only while linked, unknown lane => @laneNotFound only), together with "
+                  "unknown_lane_one_unlinked and stop_closes_all over reachable states; it is also decided on "
+                  "implementation traces by the Lean monitor. The statement without the lane-name condition is "
+                  "false (C04_link_language_fails: duplicate lane name; the real WriteTaskState shows the same: "
+                  "event after unlinked).",
+    "level_note": "The frame-language theorem is about the model (tied to WriteTaskState by correspondence) and needs "
+                  "lane names to be registered once (the runtime does not check this itself; AgentModel does); the "
+                  "read task, select! ordering and real socket back-pressure are outside the model.",
     "trusted_base": COMMON_TRUST + WT_TRUST + E2E_TRUST,
     "assumptions": ["one WriteTaskEvent is processed at a time (single task)",
-                    "a remote id is attached at most once (ids are unique per connection)"],
+                    "a remote id is attached at most once (ids are unique per connection)",
+                    "a lane name is registered at most once (enforced by swimos_agent's AgentModel, not by the runtime)"],
 }
